@@ -51,6 +51,15 @@ def indexedClasses (idx : List (Str × List ClassId)) : List ClassId :=
 def pureFields (U : Universe) (w : World) (names : List Str) : Option ClassId :=
   (bestChoice ((indexedClasses (pureIndex U w.loaded)).filterMap (choiceOf U names))).map (·.1)
 
+abbrev Use := ClassId × Option Str
+
+/-- cache-free specification of the serializer's walk; the "state" collects the requests -/
+def pureSerialize (U : Universe) (toks : List Tok) : List Use × Except Err (List Str) :=
+  serWalk (σ := List Use) (fun us c p => (us ++ [(c, p)], pureBuild U c p)) toks [] [] []
+
+/-- the `(class, parent_ns)` pairs a serialisation requests -/
+def serUses (U : Universe) (toks : List Tok) : List Use := (pureSerialize U toks).1
+
 /-- **Cache-free specification** of one call in world `w` -/
 def pureOut (U : Universe) (w : World) : Op → Out
   | .build c pns => outMeta (pureBuild U c pns)
@@ -65,8 +74,10 @@ def pureOut (U : Universe) (w : World) : Op → Out
     | .error _ => .gotBool false
   | .buildXsiCache => .done
   | .reset => .done
-
-abbrev Use := ClassId × Option Str
+  | .serialize toks =>
+    match (pureSerialize U toks).2 with
+    | .ok l => .gotNames l
+    | .error e => .raised e
 
 /-- the `(class, parent_ns)` pairs a call hands to `build` -/
 def opUses (U : Universe) (w : World) : Op → List Use
@@ -77,6 +88,7 @@ def opUses (U : Universe) (w : World) : Op → List Use
       | none => [])
   | .localNamesMatch _ c => [(c, none)]
   | .findTypeByFields _ => (indexedClasses (pureIndex U w.loaded)).map fun c => (c, none)
+  | .serialize toks => serUses U toks
   | _ => []
 
 /-- no namespace-less class is requested under two different parent namespaces -/
@@ -110,6 +122,7 @@ instance (U : Universe) (w : World) : (op : Op) → Decidable (noEvict U w op)
   | .findSubclass _ _ => inferInstanceAs (Decidable True)
   | .buildXsiCache => inferInstanceAs (Decidable True)
   | .reset => inferInstanceAs (Decidable True)
+  | .serialize _ => inferInstanceAs (Decidable True)
 
 /-- what has been requested from the instance since it was created / reset -/
 structure Track where
